@@ -600,12 +600,13 @@ class ServiceClass:
                 evt.EVT_N_ACTION,
                 {"request": req, "context": context.as_tuple},
             )
+            # A result that isn't a (status, dataset) pair is an exception
+            if self.assoc.is_established:
+                usr_status, ds = cast(UserReturnType, user_response)
 
         # Exception in context or handler aborted/released
         if not ctx.success or not self.assoc.is_established:
             return
-
-        usr_status, ds = cast(UserReturnType, user_response)
 
         # Check Status validity
         # Validate rsp_status and set rsp.Status accordingly
@@ -752,12 +753,13 @@ class ServiceClass:
                 evt.EVT_N_CREATE,
                 {"request": req, "context": context.as_tuple},
             )
+            # A result that isn't a (status, dataset) pair is an exception
+            if self.assoc.is_established:
+                usr_status, ds = cast(UserReturnType, user_response)
 
         # Exception in context or handler aborted/released
         if not ctx.success or not self.assoc.is_established:
             return
-
-        usr_status, ds = cast(UserReturnType, user_response)
 
         # Check Status validity
         # Validate rsp_status and set rsp.Status accordingly
@@ -990,12 +992,13 @@ class ServiceClass:
                 evt.EVT_N_EVENT_REPORT,
                 {"request": req, "context": context.as_tuple},
             )
+            # A result that isn't a (status, dataset) pair is an exception
+            if self.assoc.is_established:
+                usr_status, ds = cast(UserReturnType, user_response)
 
         # Exception in context or handler aborted/released
         if not ctx.success or not self.assoc.is_established:
             return
-
-        usr_status, ds = cast(UserReturnType, user_response)
 
         # Check Status validity
         # Validate rsp_status and set rsp.Status accordingly
@@ -1136,12 +1139,13 @@ class ServiceClass:
             user_response = evt.trigger(
                 ctx.assoc, evt.EVT_N_GET, {"request": req, "context": context.as_tuple}
             )
+            # A result that isn't a (status, dataset) pair is an exception
+            if self.assoc.is_established:
+                usr_status, ds = cast(UserReturnType, user_response)
 
         # Exception in context or handler aborted/released
         if not ctx.success or not self.assoc.is_established:
             return
-
-        usr_status, ds = cast(UserReturnType, user_response)
 
         # Validate rsp_status and set rsp.Status accordingly
         rsp = self.validate_status(usr_status, rsp)
@@ -1293,12 +1297,13 @@ class ServiceClass:
             user_response = evt.trigger(
                 ctx.assoc, evt.EVT_N_SET, {"request": req, "context": context.as_tuple}
             )
+            # A result that isn't a (status, dataset) pair is an exception
+            if self.assoc.is_established:
+                usr_status, ds = cast(UserReturnType, user_response)
 
         # Exception in context or handler aborted/released
         if not ctx.success or not self.assoc.is_established:
             return
-
-        usr_status, ds = cast(UserReturnType, user_response)
 
         # Validate rsp_status and set rsp.Status accordingly
         rsp = self.validate_status(usr_status, rsp)
